@@ -49,8 +49,10 @@ def queries():
         for shp in shapes16:
             for r, rn in R16.items():
               for mode in ((2,) if tier == 'quick' else (0, 1, 2)):   # a symbolic mode ran out of memory (12 GB) on the UTF-16 -> UTF-8 routes
+                # a surrogate pair through a route is 200-360 s and up to 12 GB per query: quick runs it through from_utf16 only (all routes: thorough)
+                if tier == 'quick' and shp == (2,) and r != 1: continue
                 qs.append(Q('into_u16_%s_%s_m%d_%s' % (rn, ''.join(map(str, shp)), mode, tier), 'C01_routes.c', 'strconv.cpp', config='small', defs={'OP': 1, 'ROUTE': r, 'MODE': mode, 'SHAPE_K': len(shp), 'SHAPE_LENS': '{' + ','.join(map(str, shp)) + '}'},
-                            unwind=4 * len(shp) + 6, heap_cap=32, mem_gb=12, tiers=(tier,), bound={'route': rn, 'shape': list(shp), 'mode': mode}, timeout=900))
+                            unwind=4 * len(shp) + 6, heap_cap=32, mem_gb=12 if shp == (1,) else 20, tiers=(tier,), bound={'route': rn, 'shape': list(shp), 'mode': mode}, timeout=900 if tier == 'quick' else 2400))
         for shp in shapes32:
             for r, rn in R32.items():
                 qs.append(Q('into_u32_%s_%s_%s' % (rn, ''.join(map(str, shp)), tier), 'C01_routes.c', 'strconv.cpp', config='small', defs={'OP': 2, 'ROUTE': r, 'SHAPE_K': len(shp), 'SHAPE_LENS': '{' + ','.join(map(str, shp)) + '}'},
